@@ -1179,7 +1179,13 @@ class comp(exp):
             self.parts[nk] = nv.simplify(**kargs)
         self.restruct()
         if (0, self.size) in self.parts.keys():
-            return self.parts[(0, self.size)]
+            res = self.parts[(0, self.size)]
+            if type(res) is cst:
+                # the parts have been merged into one constant: it stands for
+                # the whole comp and inherits its sign flag (as in eval)
+                res = cst(res.v, res.size)
+                res.sf = self.sf
+            return res
         else:
             return self
 
